@@ -74,8 +74,8 @@ var c03Kinds = []struct {
 	{"string", []interface{}{"", "a", "10"}},
 	{"boolean", []interface{}{true, false, true}},
 	{"null", []interface{}{nil, nil, nil}},
-	{"array", []interface{}{A{}, A{nil}, A{1.0, "a"}}},
-	{"object", []interface{}{O{}, O{"a": nil}, O{"a": 1.0, "b": "x"}}},
+	{"array", []interface{}{A{}, A{nil}, A{1.0, "<a&b>"}}},
+	{"object", []interface{}{O{}, O{"a": nil}, O{"a": 1.0, "b": "<x>"}}},
 	{"function", []interface{}{"fn0", "fn1", "fn2"}},
 	{"missing", []interface{}{"miss", "miss", "miss"}},
 }
